@@ -32,6 +32,7 @@ LEVEL_TEXT = (
 )
 LEVEL_NOTE = "The automata are written from LANGUAGE_DEFINTION.md and the feature docs; classes the docs leave open (should+should_only, redundant or re-ordered complete chains) are UNSPECIFIED and skipped."
 LEVEL_TEXT += ' Every canonical chain is additionally applied once, extended by each vocabulary symbol and applied again on the same object.'
+LEVEL_TEXT += ' DiagramRule objects are re-configured after a valid application (re-based, tag-less file, file rewritten).'
 RULE = "an evaluation = one assert_applies / entry-point call classified by the automaton; non-trivial = classified MUST_RAISE or naming something that does not exist; distinct = distinct call histories / (architecture, rule) pairs"
 ASSUMPTIONS = ["any exception other than AssertionError counts as 'configuration or lookup error' (types are recorded in the evidence)", "a call that raised aborts the chain (sequences are pruned at the first raise)"]
 SHARD_TIMEOUT = {"quick": 900, "thorough": 3400}
